@@ -30,10 +30,19 @@ type rgRunner struct {
 	forceElim  []int // replay: the members to eliminate in the next sync (nil = choose at random)
 	forceRel   []int // replay: the members to release after the next sync (nil = choose at random)
 	forced     bool
+	forceNil   bool          // replay: the empty release of the next sync is a nil slice
 	backward   bool          // the status went back to pending after the start (outside the histories of C19 / C20)
 	async      bool          // this history delays the ReleasePlayers reports of its tables (other operations come in between)
 	inflight   map[int][]int // table id -> players who have left that table and whose release has not been reported yet
 	delayNext  bool          // replay: the release of the sync at hand is reported later
+	delayed    bool          // the release of the last sync was not reported at once
+	syncNow    bool          // the release of the sync at hand is reported at once, also in an asynchronous history (measure check)
+	brokenIDs  []int         // tables broken so far in this history: the realistic unknown tables of C09
+	brokenWay  map[int]bool  // table id -> the players on the way back from it left because the table was broken
+	nilBatch   bool          // the empty batch of the operation at hand is passed as a nil slice
+	tourney    bool          // the history at hand is a full tournament
+	inOp       bool          // an operation is running and its input line has not been written yet
+	pending    [][3]string   // violations found meanwhile (property, monitor, message)
 }
 
 func pidStr(ids []int) string {
@@ -44,8 +53,19 @@ func pidStr(ids []int) string {
 	return joinList(xs, ",")
 }
 
+// batchStr: an empty batch that was passed as a nil slice is written `nil` (the model reads it as the empty list).
+func batchStr(ids []int, isNil bool) string {
+	if isNil && len(ids) == 0 {
+		return "nil"
+	}
+	return pidStr(ids)
+}
+
 func parseIDs(s string) []int {
 	out := []int{}
+	if s == "nil" {
+		return out
+	}
 	for _, x := range splitList(s, ",") {
 		out = append(out, int(atoi(x)))
 	}
@@ -79,6 +99,7 @@ func (g *rgRunner) newRG(max, min int) {
 	g.status = "pending"
 	g.dead, g.started, g.everMin, g.backward = false, false, false, false
 	g.async, g.inflight, g.delayNext = false, map[int][]int{}, false
+	g.syncNow, g.brokenIDs, g.brokenWay, g.nilBatch, g.tourney, g.inOp, g.pending = false, nil, map[int]bool{}, false, false, false, nil
 	g.registered = 0
 	g.calls, g.choices, g.handed = nil, nil, nil
 	// the two settings in either order (it depends on the settings themselves, so that a history replays the same way)
@@ -105,7 +126,7 @@ func (g *rgRunner) newRG(max, min int) {
 			g.choices = append(g.choices, tableID)
 			g.handed = append(g.handed, ids...)
 			if _, ok := g.members[t]; !ok {
-				g.o.Violate("C09", "assign_unknown_table", fmt.Sprintf("players %v assigned to table %d which does not exist", ids, t))
+				g.V("C09", "assign_unknown_table", fmt.Sprintf("players %v assigned to table %d which does not exist", ids, t))
 			}
 			g.members[t] = append(g.members[t], ids...)
 			g.checkCapacity(t, "assignPlayersFn")
@@ -135,21 +156,63 @@ func (g *rgRunner) begin() {
 	g.calls, g.choices, g.handed = nil, nil, nil
 	g.preQueue = g.queue()
 	g.initial = g.r.GetTableCount() == 0
+	g.inOp = true
+}
+
+// sheet: the regulator's table sheet id/PlayerCount/Required of every table the environment knows.
+func (g *rgRunner) sheet() string {
+	xs := []string{}
+	for _, id := range g.tableIDs() {
+		if t := g.r.GetTable(itoa(int64(id))); t != nil {
+			xs = append(xs, fmt.Sprintf("%d/%d/%d", id, t.PlayerCount, t.Required))
+		} else {
+			xs = append(xs, fmt.Sprintf("%d/nil", id))
+		}
+	}
+	return joinList(xs, ";")
 }
 
 // V reports a monitor violation inside the domain of the property: C19 is stated for 2 <= min <= max and, like
 // C20's settling sentence, for phases that only move forward (DESIGN I13; C19.capacity_fails_after_return_to_pending
 // is the kernel-checked witness that capacity fails otherwise); C09 and break_returns_all hold on the wide domain.
+// "Forward" is what RSys.ok (Model/RegulatorEnv.lean) allows: every status change except a return to pending once
+// the competition has left it.  So pending -> after directly and after -> normal (registration re-opened) are INSIDE
+// the domain of the C19 / C20 theorems and are not gated; only g.backward (a return to pending) is.
 func (g *rgRunner) V(prop, mon, msg string) {
 	if prop == "C19" && (g.backward || g.min < 2 || g.min > g.max) {
 		g.o.Count("rg.outside_domain.C19")
+		// by cause (a history can have both) and by monitor
+		if g.backward {
+			g.o.Count("rg.outside_domain.C19.backward")
+			g.o.Count("rg.outside_domain.C19.backward." + mon)
+		}
+		if g.min < 2 || g.min > g.max {
+			g.o.Count("rg.outside_domain.C19.settings")
+			g.o.Count("rg.outside_domain.C19.settings." + mon)
+		}
 		return
 	}
 	if prop == "C20" && g.backward && mon != "break_returns_all" {
 		g.o.Count("rg.outside_domain.C20")
 		return
 	}
+	if g.inOp {
+		// found while the operation is running (in a callback, or before its input line is complete): reported once the
+		// line has been written, so that the recorded history ends with the failing line
+		g.pending = append(g.pending, [3]string{prop, mon, msg})
+		return
+	}
 	g.o.Violate(prop, mon, msg)
+}
+
+// emit writes the input line and the observation of the operation at hand, then reports what the monitors found during it.
+func (g *rgRunner) emit(line, obs string) {
+	g.o.Emit(line, obs)
+	g.inOp = false
+	for _, v := range g.pending {
+		g.o.Violate(v[0], v[1], v[2])
+	}
+	g.pending = nil
 }
 
 // ---------- C19 ----------
@@ -230,6 +293,12 @@ func (g *rgRunner) checkConservation(where string) {
 	}
 }
 
+// checkHandout: theorems C09.handout_once / handout_once_async — the queue before the operation followed by the
+// players entering it (the registrants / the players whose release is reported; g.preQueue holds both) is, IN ORDER,
+// the players returned by SyncState, then the players passed to the callbacks, then the queue after the operation,
+// and no id occurs twice in that list.  So everybody handed out came from the waiting queue or was released /
+// registered in this very operation, nobody is handed out twice or handed out and still queued, nobody leaves the
+// queue in another way, and the queue is served first in, first out.
 func (g *rgRunner) checkHandout(where string) {
 	inPre := map[int]int{}
 	for _, id := range g.preQueue {
@@ -237,23 +306,51 @@ func (g *rgRunner) checkHandout(where string) {
 	}
 	seen := map[int]bool{}
 	post := map[int]bool{}
-	for _, id := range g.queue() {
+	after := g.queue()
+	for _, id := range after {
 		post[id] = true
 	}
+	clean := true
 	for _, id := range g.handed {
 		if seen[id] {
 			g.V("C09", "handout_once", fmt.Sprintf("%s: player %d handed out twice", where, id))
+			clean = false
 		}
 		seen[id] = true
 		if post[id] {
 			g.V("C09", "handout_once", fmt.Sprintf("%s: player %d handed out but still queued", where, id))
+			clean = false
 		}
+		if inPre[id] == 0 {
+			g.V("C09", "handout_from_queue", fmt.Sprintf("%s: player %d was handed out but was neither in the waiting queue nor registered / released in this operation", where, id))
+			clean = false
+		}
+	}
+	for _, id := range g.preQueue {
+		if !seen[id] && !post[id] {
+			g.V("C09", "handout_from_queue", fmt.Sprintf("%s: player %d left the waiting queue without being handed out", where, id))
+			clean = false
+		}
+	}
+	for _, id := range after {
+		if inPre[id] == 0 {
+			g.V("C09", "handout_from_queue", fmt.Sprintf("%s: player %d is queued but was neither queued before nor registered / released in this operation", where, id))
+			clean = false
+		}
+	}
+	if clean {
+		// as sets everything agrees: compare the order (first in, first out)
+		got := append(append([]int{}, g.handed...), after...)
+		if fmt.Sprint(got) != fmt.Sprint(g.preQueue) {
+			g.V("C09", "handout_in_order", fmt.Sprintf("%s: the queue %v was not served in order: handed out %v, left queued %v", where, g.preQueue, g.handed, after))
+		}
+		g.o.Count("rg.handout_order_checked")
 	}
 }
 
 func (g *rgRunner) fail(line string) {
 	g.dead = true
-	g.o.Emit(line, "rg err=panic")
+	g.emit(line, "rg err=panic")
 	g.V("C09", "panic", "regulator panicked on "+line)
 }
 
@@ -268,8 +365,14 @@ func (g *rgRunner) add(ids []int) {
 	if g.status != "after" {
 		g.registered += len(ids)
 	}
-	_, pan := safely(func() error { err = g.r.AddPlayers(toNames(ids)); return nil })
-	line := fmt.Sprintf("rg add %s %s", pidStr(ids), joinList(g.choices, ","))
+	names, isNil := toNames(ids), g.nilBatch && len(ids) == 0
+	g.nilBatch = false
+	if isNil {
+		names = nil // AddPlayers(nil): an empty batch like any other
+		g.o.Count("rg.nil_batches.add")
+	}
+	_, pan := safely(func() error { err = g.r.AddPlayers(names); return nil })
+	line := fmt.Sprintf("rg add %s %s", batchStr(ids, isNil), joinList(g.choices, ","))
 	if pan {
 		g.fail(line)
 		return
@@ -296,7 +399,7 @@ func (g *rgRunner) add(ids []int) {
 	} else if len(g.calls) > 0 || fmt.Sprint(g.queue()) != fmt.Sprint(g.preQueue) {
 		g.V("C09", "late_registration_refused", "refused registration changed the regulator")
 	}
-	g.o.Emit(line, g.obs(e, 0, nil))
+	g.emit(line, g.obs(e, 0, nil))
 	g.o.Count("rg.ops.add")
 	g.checkHandout(line)
 	g.checkConservation(line)
@@ -325,7 +428,7 @@ func (g *rgRunner) setStatus(s string) {
 		g.fail(line)
 		return
 	}
-	g.o.Emit(line, g.obs("none", 0, nil))
+	g.emit(line, g.obs("none", 0, nil))
 	g.o.Count("rg.ops.status")
 	g.checkHandout(line)
 	g.checkConservation(line)
@@ -337,26 +440,88 @@ func (g *rgRunner) release(t int, ids []int) {
 	}
 	g.begin()
 	var err error
-	_, pan := safely(func() error { err = g.r.ReleasePlayers(itoa(int64(t)), toNames(ids)); return nil })
-	line := fmt.Sprintf("rg release %d %s %s", t, pidStr(ids), joinList(g.choices, ","))
+	names, isNil := toNames(ids), g.nilBatch && len(ids) == 0
+	g.nilBatch = false
+	if isNil {
+		names = nil // the report of a table that was broken with nobody left
+		g.o.Count("rg.nil_batches.release")
+	}
+	_, pan := safely(func() error { err = g.r.ReleasePlayers(itoa(int64(t)), names); return nil })
+	line := fmt.Sprintf("rg release %d %s %s", t, batchStr(ids, isNil), joinList(g.choices, ","))
 	if pan {
 		g.fail(line)
 		return
 	}
 	_ = err
 	g.preQueue = append(g.preQueue, ids...)
-	g.o.Emit(line, g.obs("none", 0, nil))
+	g.emit(line, g.obs("none", 0, nil))
 	g.o.Count("rg.ops.release")
 	g.checkHandout(line)
 	g.checkConservation(line)
 }
 
-// flush: a delayed release report of table t arrives.
-func (g *rgRunner) flush(t int) {
+// flush: a delayed release report of table t arrives (all the players on the way back from t).
+func (g *rgRunner) flush(t int) { g.flushN(t, 0) }
+
+// flushN: the table reports the first n of the players on the way back from it (n <= 0: all of them; ASys.report
+// allows a report in several parts).  A late report is announced by a line `noise rg late <t>` (no meaning for the
+// model), so that a recorded history tells a late report from one made at once.
+func (g *rgRunner) flushN(t int, n int) {
 	ids := g.inflight[t]
-	delete(g.inflight, t)
-	if len(ids) > 0 {
+	if n > 0 && n < len(ids) {
+		g.inflight[t] = append([]int{}, ids[n:]...)
+		ids = ids[:n]
+		g.o.Count("rg.late_reports_partial")
+	} else {
+		delete(g.inflight, t)
+	}
+	wasBroken := g.brokenWay[t]
+	if _, more := g.inflight[t]; !more {
+		delete(g.brokenWay, t)
+	}
+	if len(ids) > 0 && !g.dead {
+		g.o.Emit(fmt.Sprintf("noise rg late %d", t), "ok")
 		g.release(t, ids)
+		g.o.Count("rg.late_reports")
+		if _, open := g.members[t]; !open {
+			g.o.Count("rg.late_reports_table_gone")
+		}
+		if wasBroken {
+			g.checkReturned(t, ids, true)
+		}
+	}
+}
+
+// checkReturned: second half of C20.break_returns_all(_any) — every player of a table that was told to break is,
+// once the table's ReleasePlayers report has been made, in the waiting queue or seated at ANOTHER table.  When the
+// report arrives late (other operations came in between) the same follows from C09.handout_once_async (the reported
+// players are, in order, part of what the report hands out or leaves queued) and C09.conservation_async.
+func (g *rgRunner) checkReturned(t int, released []int, late bool) {
+	if g.dead {
+		return
+	}
+	q := map[int]bool{}
+	for _, id := range g.queue() {
+		q[id] = true
+	}
+	at := map[int]int{}
+	for tb, ms := range g.members {
+		for _, m := range ms {
+			at[m] = tb
+		}
+	}
+	how := ""
+	if late {
+		how = " (late report)"
+		g.o.Count("rg.break_returns_all_late_checked")
+	}
+	for _, id := range released {
+		tb, seated := at[id]
+		if !q[id] && !seated {
+			g.V("C20", "break_returns_all", fmt.Sprintf("player %d of broken table %d is neither queued nor seated elsewhere%s", id, t, how))
+		} else if seated && tb == t {
+			g.V("C20", "break_returns_all", fmt.Sprintf("player %d of broken table %d was sent back to that table%s", id, t, how))
+		}
 	}
 }
 
@@ -378,9 +543,22 @@ func (g *rgRunner) sync(t int, out int, rng *Rng) bool {
 		return false
 	}
 	_, known0 := g.members[t]
-	if out == 0 && known0 && g.status != "pending" && len(g.inflight) == 0 && !g.async {
+	// theorem RSys.quiet_step is about one step of the synchronous system: nobody on the way back, and the report of
+	// this sync follows at once
+	measurable := out == 0 && known0 && g.status != "pending" && len(g.inflight) == 0
+	if measurable && g.async && !g.forced {
+		// an asynchronous history at a moment when nobody is on the way back: half of the time this one report is made
+		// to arrive at once, so that the step is a synchronous one and the measure can be checked (as in the settle phases)
+		g.syncNow = rng.Chance(0.5)
+		measurable = g.syncNow
+	}
+	if measurable {
 		pre := g.measure()
 		asked := g.sync1(t, out, rng)
+		g.syncNow = false
+		if g.delayed || g.dead {
+			return asked // (replay) the report of this sync is late
+		}
 		post := g.measure()
 		c := lexCmp(post, pre)
 		if asked && c >= 0 {
@@ -389,6 +567,9 @@ func (g *rgRunner) sync(t int, out int, rng *Rng) bool {
 			g.V("C20", "measure_decreases", fmt.Sprintf("elimination-free sync of table %d asked for nothing but the termination measure rose from %v to %v", t, pre, post))
 		}
 		g.o.Count("rg.measure_checked")
+		if g.async {
+			g.o.Count("rg.measure_checked_async")
+		}
 		return asked
 	}
 	return g.sync1(t, out, rng)
@@ -399,6 +580,7 @@ func (g *rgRunner) sync1(t int, out int, rng *Rng) bool {
 		return false
 	}
 	g.begin()
+	g.delayed = false
 	ms, known := g.members[t]
 	var elim []int
 	if known {
@@ -421,7 +603,10 @@ func (g *rgRunner) sync1(t int, out int, rng *Rng) bool {
 	var rel int
 	var nw []string
 	var err error
-	prePlayers, preTables := g.r.GetPlayerCount(), g.r.GetTableCount()
+	prePlayers, preTables, preSheet := g.r.GetPlayerCount(), g.r.GetTableCount(), g.sheet()
+	if known && len(g.inflight[t]) > 0 {
+		g.o.Count("rg.sync_with_release_in_flight")
+	}
 	_, pan := safely(func() error { rel, nw, err = g.r.SyncState(itoa(int64(t)), out); return nil })
 	line := fmt.Sprintf("rg sync %d %d %s", t, out, pidStr(elim))
 	if pan {
@@ -436,13 +621,31 @@ func (g *rgRunner) sync1(t int, out int, rng *Rng) bool {
 		}
 	}
 	if !known {
+		// C09.unknown_table_refused(_sys/_async): ErrNotFoundTable, asks for nothing, no callback, nothing changes
+		// (totals, queue and every table's PlayerCount / Required); C09.unknown_iff: the regulator has no sheet for it
 		if err == nil {
 			g.V("C09", "unknown_table_refused", fmt.Sprintf("SyncState on unknown table %d accepted", t))
 		} else if g.r.GetPlayerCount() != prePlayers || g.r.GetTableCount() != preTables || fmt.Sprint(g.queue()) != fmt.Sprint(g.preQueue) {
 			g.V("C09", "unknown_table_refused", "refused SyncState changed the regulator")
+		} else if post := g.sheet(); post != preSheet {
+			g.V("C09", "unknown_table_refused", fmt.Sprintf("refused SyncState on table %d changed the table sheet from %s to %s", t, preSheet, post))
+		} else if rel != 0 || len(nw) != 0 || len(g.calls) != 0 {
+			g.V("C09", "unknown_table_refused", fmt.Sprintf("refused SyncState on table %d asks for something: release %d, new players %v, callbacks %v", t, rel, nw, g.calls))
 		}
-		g.o.Emit(line, g.obs(e, rel, fromNames(nw)))
+		if g.r.GetTable(itoa(int64(t))) != nil {
+			g.V("C09", "unknown_table_refused", fmt.Sprintf("GetTable(%d) returns a sheet for a table that does not exist", t))
+		}
+		g.emit(line, g.obs(e, rel, fromNames(nw)))
 		g.o.Count("rg.ops.sync_unknown")
+		for _, b := range g.brokenIDs {
+			if b == t {
+				g.o.Count("rg.ops.sync_broken_table")
+				if len(g.inflight[t]) > 0 {
+					g.o.Count("rg.ops.sync_broken_table_release_in_flight")
+				}
+				break
+			}
+		}
 		return false
 	}
 	if err != nil {
@@ -450,8 +653,11 @@ func (g *rgRunner) sync1(t int, out int, rng *Rng) bool {
 	}
 	nwIDs := fromNames(nw)
 	g.handed = append(g.handed, nwIDs...)
-	g.o.Emit(line, g.obs(e, rel, nwIDs))
+	g.emit(line, g.obs(e, rel, nwIDs))
 	g.o.Count("rg.ops.sync")
+	if g.tourney {
+		g.o.Count("rg.tournament_syncs")
+	}
 	g.checkHandout(line)
 	// carry out the instructions
 	g.members[t] = append(g.members[t], nwIDs...)
@@ -469,7 +675,11 @@ func (g *rgRunner) sync1(t int, out int, rng *Rng) bool {
 	if broken {
 		released = g.members[t]
 		delete(g.members, t)
+		g.brokenIDs = append(g.brokenIDs, t)
 		g.o.Count("rg.breaks")
+		if len(g.inflight[t]) > 0 {
+			g.o.Count("rg.break_while_release_in_flight")
+		}
 	} else {
 		ms := g.members[t]
 		for k := 0; k < rel; k++ {
@@ -486,33 +696,28 @@ func (g *rgRunner) sync1(t int, out int, rng *Rng) bool {
 		}
 		g.members[t] = ms
 	}
-	if (len(released) > 0 || broken) && (g.delayNext || (g.async && !g.forced && rng.Chance(0.6))) {
+	if (len(released) > 0 || broken) && (g.delayNext || (g.async && !g.forced && !g.syncNow && rng.Chance(0.6))) {
 		// the players leave the table now; the table reports the release later (flush), other operations come first
-		g.inflight[t] = append(g.inflight[t], released...)
-		g.o.Count("rg.release_delayed")
+		// (a table broken with nobody left has nothing to report)
+		g.delayed = true
+		if len(released) > 0 {
+			g.inflight[t] = append(g.inflight[t], released...)
+			g.o.Count("rg.release_delayed")
+			if broken {
+				g.brokenWay[t] = true
+				g.o.Count("rg.release_delayed_broken")
+			}
+		}
 		g.checkConservation(line)
 		return asked
 	}
 	if len(released) > 0 || broken {
+		if len(released) == 0 {
+			g.nilBatch = g.forceNil || (!g.forced && rng.Chance(0.5))
+		}
 		g.release(t, released)
 		if broken {
-			q := map[int]bool{}
-			for _, id := range g.queue() {
-				q[id] = true
-			}
-			for _, id := range released {
-				at := false
-				for _, ms := range g.members {
-					for _, m := range ms {
-						if m == id {
-							at = true
-						}
-					}
-				}
-				if !q[id] && !at {
-					g.V("C20", "break_returns_all", fmt.Sprintf("player %d of broken table %d is neither queued nor seated elsewhere", id, t))
-				}
-			}
+			g.checkReturned(t, released, false)
 		}
 	} else {
 		g.checkConservation(line)
@@ -658,8 +863,17 @@ func (g *rgRunner) settle(rng *Rng, limit int) int {
 // differ from the recorded run.
 func (g *rgRunner) replay(lines []string) {
 	rng := NewRng(1)
+	marked := false // late reports are announced by `noise rg late <t>` lines
+	for _, l := range lines {
+		if strings.HasPrefix(l, "noise rg late ") {
+			marked = true
+		}
+	}
 	for k, l := range lines {
 		f := strings.Fields(l)
+		if len(f) == 4 && f[0] == "noise" && f[1] == "rg" {
+			f = []string{"rg", f[2], f[3]} // noise rg late <t>
+		}
 		if len(f) < 2 || f[0] != "rg" {
 			continue
 		}
@@ -673,33 +887,332 @@ func (g *rgRunner) replay(lines []string) {
 					g.nextPid = id
 				}
 			}
+			g.nilBatch = f[2] == "nil"
 			g.add(ids)
 		case "status":
 			g.setStatus(f[2])
 		case "sync":
-			g.forced, g.forceElim, g.forceRel, g.delayNext = true, nil, nil, false
+			g.forced, g.forceElim, g.forceRel, g.delayNext, g.forceNil = true, nil, nil, false, false
 			if len(f) > 4 {
 				g.forceElim = parseIDs(f[4])
 			}
-			// the release that belongs to this sync: the next line when it was reported at once, a later
-			// `release` line of the same table (before its next sync) when it was delayed
-			for j := k + 1; j < len(lines); j++ {
-				nf := strings.Fields(lines[j])
-				if len(nf) > 3 && nf[1] == "release" && nf[2] == f[2] {
-					g.forceRel = parseIDs(nf[3])
-					g.delayNext = j > k+1
-					break
-				}
-				if len(nf) > 2 && (nf[1] == "new" || (nf[1] == "sync" && nf[2] == f[2])) {
-					break
+			if marked {
+				g.lookahead(lines, k, f[2])
+			} else {
+				// histories recorded before late reports were announced: the release that belongs to this sync is the
+				// next line when it was reported at once, a later `release` line of the same table (before its next
+				// sync) when it was delayed
+				for j := k + 1; j < len(lines); j++ {
+					nf := strings.Fields(lines[j])
+					if len(nf) > 3 && nf[1] == "release" && nf[2] == f[2] {
+						g.forceRel = parseIDs(nf[3])
+						g.forceNil = nf[3] == "nil"
+						g.delayNext = j > k+1
+						break
+					}
+					if len(nf) > 2 && (nf[1] == "new" || (nf[1] == "sync" && nf[2] == f[2])) {
+						break
+					}
 				}
 			}
 			g.sync(int(atoi(f[2])), int(atoi(f[3])), rng)
-			g.forced, g.delayNext = false, false
+			g.forced, g.delayNext, g.forceNil = false, false, false
 		case "release":
 			// reported at once: carried out by the sync that precedes it; delayed: arrives now
-			if _, ok := g.inflight[int(atoi(f[2]))]; ok {
+			if _, ok := g.inflight[int(atoi(f[2]))]; ok && !marked {
 				g.flush(int(atoi(f[2])))
+			}
+		case "late":
+			// `noise rg late <t>`: the release line that follows is a late report of (the first) players on the way back from t
+			if k+1 < len(lines) {
+				nf := strings.Fields(lines[k+1])
+				if len(nf) > 3 && nf[0] == "rg" && nf[1] == "release" && nf[2] == f[2] {
+					if n := len(parseIDs(nf[3])); n > 0 {
+						g.flushN(int(atoi(f[2])), n)
+					}
+				}
+			}
+		}
+	}
+}
+
+// lookahead (replay): which members the sync at line k of table t releases, and whether its report is late.  The
+// release line right after the sync is its own report, made at once.  Otherwise its players, if any, are reported
+// late: the late reports of t that follow (announced by `noise rg late t`) list, in order, the players on the way back
+// from t now and then those released by this and by later syncs of t.
+func (g *rgRunner) lookahead(lines []string, k int, t string) {
+	if k+1 < len(lines) {
+		nf := strings.Fields(lines[k+1])
+		if len(nf) > 3 && nf[0] == "rg" && nf[1] == "release" && nf[2] == t {
+			g.forceRel = parseIDs(nf[3])
+			g.forceNil = nf[3] == "nil"
+			return
+		}
+	}
+	g.delayNext = true
+	later := []int{}
+	for j := k + 1; j+1 < len(lines); j++ {
+		nf := strings.Fields(lines[j])
+		if len(nf) > 1 && nf[0] == "rg" && nf[1] == "new" {
+			break
+		}
+		if len(nf) == 4 && nf[0] == "noise" && nf[1] == "rg" && nf[2] == "late" && nf[3] == t {
+			rf := strings.Fields(lines[j+1])
+			if len(rf) > 3 && rf[1] == "release" {
+				later = append(later, parseIDs(rf[3])...)
+			}
+		}
+	}
+	if skip := len(g.inflight[int(atoi(t))]); skip <= len(later) {
+		g.forceRel = later[skip:]
+	}
+}
+
+// batch: register cnt fresh players.
+func (g *rgRunner) batch(cnt int) {
+	ids := []int{}
+	for j := 0; j < cnt; j++ {
+		g.nextPid++
+		ids = append(ids, g.nextPid)
+	}
+	g.add(ids)
+}
+
+// settlePhase: no registrations, no eliminations, every report made: sweep until quiet, within the bound of
+// C20.rebalancing_settles_small.
+func (g *rgRunner) settlePhase(rng *Rng, maxSweeps *int) {
+	if len(g.members) == 0 || g.dead {
+		return
+	}
+	g.flushAll()
+	limit := g.smallBound() // of the state the settle phase starts from
+	sw := g.settle(rng, limit)
+	g.o.Count(fmt.Sprintf("rg.settle_sweeps.%d", sw))
+	if sw > *maxSweeps {
+		*maxSweeps = sw
+	}
+	if sw > limit {
+		g.V("C20", "rebalancing_settles", fmt.Sprintf("%d sweeps without registrations or eliminations and tables are still asked to move players (%d tables)", sw, len(g.members)))
+	}
+	g.o.Mark("C20", fmt.Sprintf("%d/%d/%d/%v", g.max, g.min, len(g.alive), sw))
+}
+
+// lateReport: one of the tables with players on the way back reports (a quarter of the time only the first few of them).
+func (g *rgRunner) lateReport(rng *Rng) {
+	ts := []int{}
+	for t := range g.inflight {
+		ts = append(ts, t)
+	}
+	sort.Ints(ts)
+	t := ts[rng.Intn(len(ts))]
+	if k := len(g.inflight[t]); k > 1 && rng.Chance(0.25) {
+		g.flushN(t, 1+rng.Intn(k-1))
+		return
+	}
+	g.flush(t)
+}
+
+// pickTable: the table that syncs next; in a history with late reports a third of the time one whose players are
+// still on the way back (it may have been broken meanwhile: then the sync names an unknown table).  -1: no table.
+func (g *rgRunner) pickTable(rng *Rng) int {
+	if g.async && len(g.inflight) > 0 && rng.Chance(0.35) {
+		ts := []int{}
+		for t := range g.inflight {
+			ts = append(ts, t)
+		}
+		sort.Ints(ts)
+		return ts[rng.Intn(len(ts))]
+	}
+	ids := g.tableIDs()
+	if len(ids) == 0 {
+		return -1
+	}
+	return ids[rng.Intn(len(ids))]
+}
+
+// syncUnknown: SyncState naming a table that does not exist: most of the time one that was broken earlier in this
+// history (the realistic unknown table), else the id the next table will get, 0, or an id far away.
+func (g *rgRunner) syncUnknown(rng *Rng) {
+	t := 900 + rng.Intn(5)
+	switch {
+	case len(g.brokenIDs) > 0 && rng.Chance(0.6):
+		t = g.brokenIDs[rng.Intn(len(g.brokenIDs))]
+		if rng.Chance(0.5) {
+			t = g.brokenIDs[len(g.brokenIDs)-1] // the table broken last
+		}
+	case rng.Chance(0.2):
+		t = g.nextTbl + 1
+		g.o.Count("rg.ops.sync_next_table_id")
+	case rng.Chance(0.1):
+		t = 0
+	}
+	if _, open := g.members[t]; open {
+		return
+	}
+	g.sync(t, rng.Intn(3), rng)
+}
+
+// tourneyStep: one step of a running tournament: a late report, a settle phase, a sync of a broken table, or (mostly)
+// the sync of a table, with eliminations with probability pElim, never leaving fewer than `target` players alive.
+func (g *rgRunner) tourneyStep(rng *Rng, pElim float64, target int, maxSweeps *int) {
+	if len(g.inflight) > 0 && rng.Chance(0.2) {
+		g.lateReport(rng)
+		return
+	}
+	k := rng.Intn(100)
+	switch {
+	case k < 4:
+		g.settlePhase(rng, maxSweeps)
+	case k < 8:
+		g.syncUnknown(rng)
+	default:
+		t := g.pickTable(rng)
+		if t < 0 {
+			return
+		}
+		ms, open := g.members[t]
+		if !open {
+			g.sync(t, rng.Intn(3), rng)
+			return
+		}
+		out := 0
+		if rng.Chance(pElim) {
+			out = 1
+			if rng.Chance(0.25) {
+				out = 1 + rng.Intn(3)
+			}
+			if rng.Chance(0.04) {
+				out = (len(ms) + 1) / 2 // a big hand
+			}
+		}
+		if out > len(ms) {
+			out = len(ms)
+		}
+		if out > len(g.alive)-target {
+			out = len(g.alive) - target
+		}
+		if out < 0 {
+			out = 0
+		}
+		g.sync(t, out, rng)
+	}
+}
+
+// tournament: a whole competition (C09 / C19 / C20 over a long history and a large field): max 2..14, N from 3 max
+// to 15 max players; part of them register while the competition is pending, start, late batches with the first
+// syncs in between, registration deadline, then eliminations through syncs of randomly chosen tables down to one
+// player (a tenth of the time: to nobody), with settle phases, syncs of broken tables and, in half of the
+// tournaments, late release reports in between.
+func (g *rgRunner) tournament(rng *Rng, maxSweeps *int) {
+	o := g.o
+	max := 2 + rng.Intn(13)
+	min := 2 + rng.Intn(max-1)
+	if rng.Chance(0.2) {
+		max, min = 9, 6
+	}
+	n := 3*max + rng.Intn(12*max+1)
+	g.newRG(max, min)
+	g.tourney = true
+	o.Count("rg.tournaments")
+	if rng.Chance(0.5) {
+		g.async = true
+		o.Count("rg.tournaments_async")
+	}
+	pre := n * (40 + rng.Intn(61)) / 100
+	for left := pre; left > 0; {
+		c := 1 + rng.Intn(2*max)
+		if c > left {
+			c = left
+		}
+		g.batch(c)
+		left -= c
+	}
+	g.setStatus("normal")
+	for left := n - pre; left > 0 && !g.dead; {
+		c := 1 + rng.Intn(max+2)
+		if c > left {
+			c = left
+		}
+		g.batch(c)
+		left -= c
+		for j := rng.Intn(3); j > 0; j-- {
+			g.tourneyStep(rng, 0.3, 1, maxSweeps)
+		}
+	}
+	g.setStatus("after")
+	atDeadline, top := len(g.members), len(g.alive)
+	if rng.Chance(0.3) {
+		g.batch(1 + rng.Intn(3)) // too late: refused
+	}
+	target := 1
+	if rng.Chance(0.1) {
+		target = 0
+	}
+	for steps := 0; len(g.alive) > target && steps < 60*n+200 && !g.dead; steps++ {
+		g.tourneyStep(rng, 0.85, target, maxSweeps)
+	}
+	g.flushAll()
+	g.settlePhase(rng, maxSweeps)
+	if len(g.alive) <= target {
+		o.Count("rg.tournaments_played_out")
+	}
+	if atDeadline >= 5 && len(g.members) <= 1 {
+		o.Count("rg.tournaments_from_5_tables_to_1")
+	}
+	if atDeadline >= 10 && max >= 9 {
+		o.Count("rg.tournaments_10_tables_of_9")
+	}
+	if top >= 100 {
+		o.Count("rg.tournaments_100_players")
+	}
+	o.Count(fmt.Sprintf("rg.tournament_end_tables.%d", len(g.members)))
+	o.Mark("C20", fmt.Sprintf("T/%d/%d/%d/%d", max, min, n, atDeadline))
+}
+
+// grid: the initial allocation for EVERY setting 2 <= min <= max <= 14 and EVERY number of registrants N in
+// 0..6 max+1, three ways: all register and the competition starts; it starts and all register in one batch; it
+// starts and they register in two batches (the first one short of the minimum when N is odd, half of them when N is
+// even: then the second batch tops up / opens further tables).  Deterministic; the processes of a run share it.
+func (g *rgRunner) grid(part, parts int) {
+	idx := 0
+	for max := 2; max <= 14; max++ {
+		for min := 2; min <= max; min++ {
+			for n := 0; n <= 6*max+1; n++ {
+				for way := 0; way < 3; way++ {
+					idx++
+					if idx%parts != part {
+						continue
+					}
+					g.newRG(max, min)
+					switch way {
+					case 0:
+						g.batch(n)
+						g.setStatus("normal")
+					case 1:
+						g.setStatus("normal")
+						g.batch(n)
+					default:
+						a := n / 2
+						if n%2 == 1 && n >= min {
+							a = min - 1
+						}
+						g.setStatus("normal")
+						g.batch(a)
+						if g.nextTbl > 0 {
+							g.o.Count("rg.grid.second_batch_meets_tables")
+						}
+						g.batch(n - a)
+					}
+					g.o.Count("rg.grid.histories")
+					if g.nextTbl > 0 {
+						g.o.Count("rg.grid.tables_opened")
+					}
+					if len(g.queue()) > 0 && g.nextTbl > 0 {
+						g.o.Count("rg.grid.somebody_left_waiting")
+					}
+					g.o.Mark("C19", fmt.Sprintf("G/%d/%d/%d/%d/%d", max, min, n, way, g.nextTbl))
+					g.o.Mark("C09", fmt.Sprintf("G/%d/%d/%d/%d", max, min, n, way))
+				}
 			}
 		}
 	}
@@ -710,7 +1223,16 @@ func runRG(dir string, seed uint64, n int) {
 	rng := NewRng(seed)
 	g := &rgRunner{o: o}
 	maxSweeps := 0
+	// the deterministic C19 grid, shared by the processes of a run (their seeds are VERIF_SEED*1000 + k)
+	g.grid(int(seed%1000)%4, 4)
 	for it := 0; it < n; it++ {
+		if it%40 == 39 {
+			g.tournament(rng, &maxSweeps)
+			o.Count(fmt.Sprintf("rg.max.%d", g.max))
+			o.Mark("C09", fmt.Sprintf("%d/%d/%d/%d", g.max, g.min, len(g.alive), len(g.members)))
+			o.Mark("C19", fmt.Sprintf("%d/%d/%d/%d", g.max, g.min, g.registered, g.nextTbl))
+			continue
+		}
 		max := 2 + rng.Intn(9)
 		min := 2 + rng.Intn(max-1)
 		if rng.Chance(0.3) {
@@ -741,13 +1263,8 @@ func runRG(dir string, seed uint64, n int) {
 		steps := 5 + rng.Intn(40)
 		for s := 0; s < steps && !g.dead; s++ {
 			k := rng.Intn(100)
-			if len(g.inflight) > 0 && rng.Chance(0.35) {
-				ts := []int{}
-				for t := range g.inflight {
-					ts = append(ts, t)
-				}
-				sort.Ints(ts)
-				g.flush(ts[rng.Intn(len(ts))])
+			if len(g.inflight) > 0 && rng.Chance(0.2) {
+				g.lateReport(rng)
 				continue
 			}
 			switch {
@@ -757,21 +1274,24 @@ func runRG(dir string, seed uint64, n int) {
 					cnt = 1 + rng.Intn(3*max)
 				}
 				if rng.Chance(0.03) {
-					cnt = 0 // an empty batch
+					cnt = 0 // an empty batch, half of the time a nil slice
+					g.nilBatch = rng.Chance(0.5)
 					o.Count("rg.empty_batches")
 				}
-				ids := []int{}
-				for j := 0; j < cnt; j++ {
-					g.nextPid++
-					ids = append(ids, g.nextPid)
-				}
-				g.add(ids)
+				g.batch(cnt)
 			case k < 38 && g.status != "pending" && rng.Chance(backP):
 				g.setStatus("pending")
 			case k < 38:
+				// forward moves (the domain of C19 / C20: RSys.ok forbids only a return to pending): mostly
+				// pending -> normal -> after, sometimes pending -> after directly and after -> normal (registration re-opened)
 				switch g.status {
 				case "pending":
-					g.setStatus("normal")
+					if rng.Chance(0.06) {
+						g.setStatus("after")
+						o.Count("rg.status_pending_to_after")
+					} else {
+						g.setStatus("normal")
+					}
 				case "normal":
 					if rng.Chance(0.5) {
 						g.setStatus("after")
@@ -779,14 +1299,22 @@ func runRG(dir string, seed uint64, n int) {
 						g.setStatus("normal")
 					}
 				default:
-					g.setStatus("after")
+					if rng.Chance(0.2) {
+						g.setStatus("normal")
+						o.Count("rg.status_after_to_normal")
+					} else {
+						g.setStatus("after")
+					}
 				}
 			case k < 80:
-				ids := g.tableIDs()
-				if len(ids) == 0 {
+				t := g.pickTable(rng)
+				if t < 0 {
 					continue
 				}
-				t := ids[rng.Intn(len(ids))]
+				if _, open := g.members[t]; !open {
+					g.sync(t, rng.Intn(3), rng) // broken while its players are on the way back
+					continue
+				}
 				out := 0
 				if rng.Chance(0.6) {
 					out = rng.Intn(len(g.members[t]) + 1)
@@ -794,23 +1322,21 @@ func runRG(dir string, seed uint64, n int) {
 						out = 1 + rng.Intn(2)
 					}
 				}
-				g.sync(t, out, rng)
-			case k < 84:
-				g.sync(900+rng.Intn(5), rng.Intn(3), rng)
-			default:
-				if len(g.members) > 0 {
-					g.flushAll()
-					limit := g.smallBound() // of the state the settle phase starts from
-					sw := g.settle(rng, limit)
-					o.Count(fmt.Sprintf("rg.settle_sweeps.%d", sw))
-					if sw > maxSweeps {
-						maxSweeps = sw
+				if len(g.inflight[t]) > 0 && rng.Chance(0.4) {
+					// its release is under way and it loses (almost) everybody: a candidate for being broken meanwhile
+					if out = len(g.members[t]) - rng.Intn(3); out < 0 {
+						out = 0
 					}
-					if sw > limit {
-						g.V("C20", "rebalancing_settles", fmt.Sprintf("%d sweeps without registrations or eliminations and tables are still asked to move players (%d tables)", sw, len(g.members)))
-					}
-					o.Mark("C20", fmt.Sprintf("%d/%d/%d/%v", max, min, len(g.alive), sw))
 				}
+				g.sync(t, out, rng)
+				if _, open := g.members[t]; open && g.delayed && rng.Chance(0.4) {
+					// the same table syncs again before its release has been reported
+					g.sync(t, rng.Intn(3)%(len(g.members[t])+1), rng)
+				}
+			case k < 84:
+				g.syncUnknown(rng)
+			default:
+				g.settlePhase(rng, &maxSweeps)
 			}
 		}
 		g.flushAll()
